@@ -214,7 +214,7 @@ Proof.
   unfold valid_file, ws_file, krefs_file.
   destruct (import_map (jf_imports f) []) as [im| | |]; cbn [andb]; try (rewrite !andb_false_r; reflexivity).
   rewrite (elements_split snake camel (mkEnv (j5s_pkg f) im (pkg_exports camel bd)) (jf_elements f)).
-  destruct (forallb type_ident_or_seg (jf_dir f)); reflexivity.
+  destruct (forallb type_ident_or_seg (jf_dir f)), (file_lists_ok f); reflexivity.
 Qed.
 
 Lemma struct_distinct_exports bd :
